@@ -201,7 +201,8 @@ CLAIMED.update({
               "target slot, script, request count and task record) and C15_queue_order are proved for all task sets with disjoint "
               "footprints; the real Downloader.download() is run under 6 schedules per scenario and whole runs under 4 schedules and 3 "
               "hash seeds, all results must be identical; the keyed model under a random schedule must agree with the sequential model "
-              "and the implementation."),
+              "and the implementation; queues in which one pool path occurs twice with different sizes (outside Disjoint) are run in every "
+              "queue order under several schedules and must give the same tree and error status."),
         note="Hypothesis Disjoint (no shared target/URL between queue entries) is forced by the proof; the excluded point is finding F-C05a. Timing-dependent aborts belong to the fault plan (S9). Trusted: Lean kernel, model, harness scheduler.",
         design="6/C15"),
 })
